@@ -57,27 +57,22 @@ def classify(case, detail):
     not absorbed."""
     fl = flags_of(case)
     clause = detail.split(" ", 1)[0]
-    listco = bool(fl & {"lit_listcoerce", "var_listcoerce", "default_listcoerce"})
     # variables nested in list/object literals: their current JSON value is inlined at extraction
     if "nestedvar" in fl:
         return "nested-variable-in-extracted-literal"
-    if clause in ("valid_preserved/varsvalidate", "valid_preserved/norm2"):
-        if "op_not_first" in fl and listco:
-            return "list-coercion-skipped-when-operation-not-first"
-        if "default_listcoerce" in fl:
-            return "default-value-nested-list-not-coerced"
-    # an uncoerced value inside a list of input objects makes default injection skip that item without
-    # advancing its index: the item is overwritten by the next one (the request then even passes
-    # variables validation, with other argument values)
-    argdiff = False
-    m = re.search(r'orig=(.*) norm=(.*)$', detail)
-    if m and m.group(1).startswith('(s "') and m.group(2).startswith('(s "'):
-        argdiff = True
-    if (clause.startswith("exec_preserved") and argdiff) or clause.startswith("idempotent"):
-        if "op_not_first" in fl and listco:
-            return "list-coercion-skipped-when-operation-not-first"
-        if "default_listcoerce" in fl:
-            return "default-value-nested-list-not-coerced"
+    # (the keys list-coercion-skipped-when-operation-not-first and default-value-nested-list-not-coerced
+    #  were repaired in /repo -- work/c03_fix_*.patch; they are no longer mapped, a regression is a VIOLATION)
+    if clause == "canonical":
+        m = re.search(r' A="(.*)" B="(.*)" varsA=(.*) varsB=(.*) variant=', detail)
+        if m and m.group(1) != m.group(2):
+            a, b = m.group(1), m.group(2)
+            if m.group(3) == m.group(4) and "__internal_typename" in (a + b) and _strip_placeholder(a) == _strip_placeholder(b):
+                return "placeholder-left-after-fragment-inlining"
+            # same selections, only the nesting of (non-inlinable) abstract-type fragments differs (and with
+            # it the order in which the variables are met, hence their canonical names)
+            anon = lambda t: re.sub(r'\$\w+', '$', t)
+            if "fragwrap_in_fragment" in detail.split(" A=", 1)[0] and _tokens(anon(a)) == _tokens(anon(b)):
+                return "inlining-depends-on-fragment-nesting"
     if clause.startswith("exec_preserved") or clause.startswith("idempotent") or clause == "canonical":
         if "null_in_object_list" in fl:
             if not clause.startswith("exec_preserved"):
@@ -86,19 +81,6 @@ def classify(case, detail):
             m = re.search(r'orig=(.*) norm=(.*)$', detail)
             if m and m.group(1).startswith('(s "') and m.group(2).startswith('(s "'):
                 return "default-injection-null-list-item"
-    if clause.startswith("exec_preserved") and "default_null_list" in fl:
-        m = re.search(r'orig=(.*) norm=(.*)$', detail)
-        if m and m.group(1).startswith('(s "') and ":null" in m.group(1) and "[null]" in m.group(2):
-            return "null-default-of-list-variable-wrapped"
-    if clause == "canonical":
-        m = re.search(r' A="(.*)" B="(.*)" varsA=(.*) varsB=(.*) variant=', detail)
-        if m and m.group(1) != m.group(2) and m.group(3) == m.group(4):
-            a, b = m.group(1), m.group(2)
-            if "__internal_typename" in (a + b) and _strip_placeholder(a) == _strip_placeholder(b):
-                return "placeholder-left-after-fragment-inlining"
-            # same selections, only the nesting of (non-inlinable) abstract-type fragments differs
-            if "fragwrap_in_fragment" in detail.split(" A=", 1)[0] and _tokens(a) == _tokens(b):
-                return "inlining-depends-on-fragment-nesting"
     return None
 
 
